@@ -201,19 +201,21 @@ def real(case):
         c = combo + [None, None]
         L.conn.execute("insert into t values (?, ?, ?, ?, ?, ?)", [i, dbutil.us_to_ts(t), c[0], c[1], v, w])
     L.add_model(Model(name="t", table="t", primary_key="id",
-                      dimensions=[Dimension(name="ts", type="time", granularity=case["gran"], sql="ts"), Dimension(name="cat", type="categorical"), Dimension(name="reg", type="categorical")],
+                      dimensions=[Dimension(name="ts", type="time", granularity=case["gran"], sql="ts"),
+                                  # the other dimensions are NAMED like the time dimension plus a suffix (created / created_by, order_date / order_date_type): still their own dimensions
+                                  Dimension(name="ts_cat", type="categorical", sql="cat"), Dimension(name="tsreg", type="categorical", sql="reg")],
                       metrics=metric_defs(case)))
     tdim = "t.ts" if case["bare"] else "t.ts__%s" % case["gran"]
-    dims = [tdim] + ["t.cat", "t.reg"][:case["ndims"]]
+    dims = [tdim] + ["t.ts_cat", "t.tsreg"][:case["ndims"]]
     if case.get("dims_first"):
         dims = dims[1:] + dims[:1]
-    filters = {"v": ["t.v >= 1"], "cat": ["t.cat = 'a'"], None: []}[case["filt"]]
+    filters = {"v": ["t.v >= 1"], "cat": ["t.ts_cat = 'a'"], None: []}[case["filt"]]
     sql = L.compile(metrics=["t.m%d" % j for j in range(len(case["mets"]))], dimensions=dims, filters=filters)
     cur = L.conn.execute(sql)
     cols = [d[0] for d in cur.description]
     rows = cur.fetchall()
     tcol = cols.index("ts" if case["bare"] else "ts__%s" % case["gran"])
-    kcols = [cols.index(x) for x in ["cat", "reg"][:case["ndims"]]]
+    kcols = [cols.index(x) for x in ["ts_cat", "tsreg"][:case["ndims"]]]
     out = {}
     for j in range(len(case["mets"])):
         nm = "m%d" % j
@@ -325,14 +327,14 @@ def offset_cell(ctype, gran, calc="difference"):
     step = {"day": "INTERVAL 1 DAY", "week": "INTERVAL 7 DAY", "month": "INTERVAL 1 MONTH", "quarter": "INTERVAL 3 MONTH", "year": "INTERVAL 1 YEAR"}[gran]
     L.conn.execute("insert into t select i * 2 + j, TIMESTAMP '2019-01-07 10:00:00' + i * %s, ['a', 'b'][j + 1], (i * 37 + j * 11) %% 101 + i from range(%d) r(i), range(2) s(j)" % (step, n))
     L.add_model(Model(name="t", table="t", primary_key="id",
-                      dimensions=[Dimension(name="ts", type="time", granularity=gran, sql="ts"), Dimension(name="cat", type="categorical")],
+                      dimensions=[Dimension(name="ts", type="time", granularity=gran, sql="ts"), Dimension(name="ts_cat", type="categorical", sql="cat")],
                       metrics=[Metric(name="tv", agg="sum", sql="v"),
                                Metric(name="m0", type="time_comparison", base_metric="t.tv", comparison_type=ctype, calculation=calc)]))
-    sql = L.compile(metrics=["t.tv", "t.m0"], dimensions=["t.ts__%s" % gran, "t.cat"])
+    sql = L.compile(metrics=["t.tv", "t.m0"], dimensions=["t.ts__%s" % gran, "t.ts_cat"])
     cur = L.conn.execute(sql)
     cols = [d[0] for d in cur.description]
     rows = cur.fetchall()
-    it, ic, iv, im = cols.index("ts__%s" % gran), cols.index("cat"), cols.index("tv"), (cols.index("m0") if "m0" in cols else cols.index("t.m0"))
+    it, ic, iv, im = cols.index("ts__%s" % gran), cols.index("ts_cat"), cols.index("tv"), (cols.index("m0") if "m0" in cols else cols.index("t.m0"))
     bad = []
     for cat in ("a", "b"):
         ser = sorted((r for r in rows if r[ic] == cat), key=lambda r: r[it])
